@@ -129,6 +129,15 @@ def scaled(seq, k=RT.SCALE):
     return tuple(float(k * v) for v in seq)
 
 
+def proper_subsets(dev):
+    """the proper subsets of the deviations in force, largest first (closest to the code as known)"""
+    import itertools
+    out = []
+    for n in range(len(dev) - 1, -1, -1):
+        out += [list(c) for c in itertools.combinations(dev, n)]
+    return out
+
+
 def read_emitted(path):
     """distinct terminal states (a terminal state is printed again for its stuttering step)"""
     seen = set()
@@ -570,11 +579,18 @@ def replay_trees(ck, conf, recs, geom, both_variants):
             for i, v, findings, d, nontrivial, sample in res:
                 drift += d
                 for key, what in findings:
+                    if key == "walk-mutates-document":
+                        # not a clause of C04 (the pages produced are still right): history independence is C12's
+                        # business.  Reported as spec/code drift - the model's document does not change.
+                        ck.extra["walk_mutates_document"] = ck.extra.get("walk_mutates_document", 0) + 1
+                        if ck.extra["walk_mutates_document"] == 1:
+                            ck.note("create_pages changed the document's own objects (model: the document is read-only): " + what)
+                        continue
                     ck.violation(key, what, {"kind": "tree", "rec": recs[i], "attrs": list(conf["attrs"]), "variant": v,
                                              "shift": (ck.seed + i) % 7, "config": conf["name"]})
                 ck.case(1, ("T", conf["name"], i) if nontrivial else None)
                 ck.replayed += 1
-                if sample is not None and not findings:
+                if sample is not None and not [f for f in findings if f[0] != "walk-mutates-document"]:
                     ck.sample(sample, limit=6)
     return drift
 
@@ -751,26 +767,33 @@ def validate_tree_traces(ck, traces, dev, tmp, label="recorded page-tree traces"
     tdev = [d for d in dev if d in TREE_DEVS]
     todo = [{k: t[k] for k in ("name", "tree", "cat", "pages", "sels")} for t in traces]
     rejected = 0
-    intended_only = 0
+    first = True
     while todo:
         res = _tree_trace_run(todo, tdev, tmp, "coded")
         if ck is not None:
             ck.add_tlc(res, "%s (%d)" % (label, len(todo)))
         if res.ok:
             break
+        if first and tdev:
+            # not all traces are behaviours of the as-coded model: has the tree been repaired?  (one more run, all traces)
+            first = False
+            explained = None
+            for sub in proper_subsets(tdev):
+                res2 = _tree_trace_run(todo, sub, tmp, "sub")
+                if ck is not None:
+                    ck.add_tlc(res2, "%s against the model with deviations %s (%d)" % (label, sub, len(todo)))
+                if res2.ok:
+                    explained = sub
+                    break
+            if explained is not None:
+                if ck is not None:
+                    ck.note("the recorded traces follow the model with deviations %s only, where %s are listed as known (repaired in this tree?)" % (explained, tdev))
+                    ck.extra["traces_explained_with_deviations"] = explained
+                break
         st = res.error_trace[-1][1]
         t, k = int(st["t"]), int(st["k"])
         tr = todo[t - 1]
         todo = todo[t:]
-        if tdev:
-            res2 = _tree_trace_run([tr], [], tmp, "intended")
-            if ck is not None:
-                ck.add_tlc(res2, "trace %s against the intended model" % tr["name"])
-            if res2.ok:
-                intended_only += 1
-                continue
-            st = res2.error_trace[-1][1]
-            k = int(st["k"])
         rejected += 1
         what = ("recorded walk of %s is not a behaviour of the page-tree specification: after %d of %d pages the machine is at "
                 "pc=%s call=%s, next recorded page %s" % (tr["name"], k, len(tr["pages"]), st.get("pc"), st.get("call"),
@@ -782,9 +805,6 @@ def validate_tree_traces(ck, traces, dev, tmp, label="recorded page-tree traces"
         if rejected >= 5:
             rejected += len(todo)
             break
-    if intended_only and ck is not None:
-        ck.note("%d recorded traces follow the intended model where a known deviation is listed (repaired in this tree?)" % intended_only)
-        ck.extra["traces_following_intended_model_only"] = intended_only
     return rejected
 
 
@@ -805,20 +825,30 @@ def validate_geom_events(ck, events, dev, tmp, label="recorded process_page even
     gdev = [d for d in dev if d in GEOM_DEVS]
     todo = list(events)
     rejected = 0
-    intended_only = 0
+    first = True
     while todo:
         res = _geom_trace_run(todo, gdev, tmp, "coded")
         if ck is not None:
             ck.add_tlc(res, "%s (%d)" % (label, len(todo)))
         if res.ok:
             break
+        if first and gdev:
+            first = False
+            explained = None
+            for sub in proper_subsets(gdev):
+                res2 = _geom_trace_run(todo, sub, tmp, "sub")
+                if ck is not None:
+                    ck.add_tlc(res2, "%s against the model with deviations %s (%d)" % (label, sub, len(todo)))
+                if res2.ok:
+                    explained = sub
+                    break
+            if explained is not None:
+                if ck is not None:
+                    ck.note("the recorded process_page events follow the model with deviations %s only, where %s are listed as known" % (explained, gdev))
+                break
         i = int(res.error_trace[-1][1]["i"])
         e = todo[i - 1]
         todo = todo[i:]
-        if gdev and _geom_trace_run([e], [], tmp, "intended").ok:
-            intended_only += 1
-            if intended_only < 200:
-                continue
         rejected += 1
         what = "recorded process_page event of %s is not a behaviour of the page-geometry specification: %s" % (
             e.get("name"), {k: e[k] for k in ("boxw", "mediabox", "rraw", "rotate", "ctm", "bbox")})
@@ -829,8 +859,6 @@ def validate_geom_events(ck, events, dev, tmp, label="recorded process_page even
         if rejected >= 5:
             rejected += len(todo)
             break
-    if intended_only and ck is not None:
-        ck.note("%d recorded process_page events follow the intended model where a known deviation is listed" % intended_only)
     return rejected
 
 
